@@ -303,6 +303,25 @@ pub fn corpus(pick: u32, large: bool) -> Vec<(DS, String, Known)> {
         if let Some(s) = sum(&s3_, &sx, 6) {
             out.push((s, "S^3 # S^2 x S^1".into(), Known::NotFlat));
         }
+        // the flat manifold with holonomy Z6 (6_1 screw axis; H1 = Z) tiled by triangular prisms, and
+        // connected sums whose first homology is Z^3 although they are not tori: they pass the
+        // invariant filter and are their own pseudo-toroidal cover, and simplification cannot
+        // collapse the flat summand
+        let g5 = crate::gen::prismatic::prism_quotient(&crate::gen::prismatic::triangle_torus(3), 6, &[(6, 2)]).0;
+        let (t0, t1) = circle(2);
+        let sxt = product(&dihedron(3), &t0, &t1);
+        if is_manifold_symbol(&g5) && is_manifold_symbol(&sxt) {
+            if let Some(a) = sum(&g5, &sxt, 7) {
+                if let Some(b) = sum(&a, &sxt, 8) {
+                    out.push((b, "G5 # 2 (S^2 x S^1) (G5 = flat manifold with holonomy Z6; H1 = Z^3, not a torus)".into(), Known::NotFlat));
+                }
+            }
+            if let Some(a) = sum(&g5, &g5, 9) {
+                if let Some(b) = sum(&a, &g5, 10) {
+                    out.push((b, "G5 # G5 # G5 (H1 = Z^3, a non-trivial connected sum)".into(), Known::NotFlat));
+                }
+            }
+        }
     }
     out
 }
